@@ -30,7 +30,7 @@ RULE = ("scripts of 2-14 operations over top-level names a,b,c and child names x
         "full/held stops; non-trivial = the harness produced a digest; distinct by (case, output)")
 EXPLANATION = "Each script runs on a fresh real actor system and on the Lean model; per-operation results (PID identity by first appearance, running flag, errors) and the final digest (tree, actor count, live instances, instances started, paths that had two live instances) must be equal."
 
-FACTS = {
+SRC_FACTS = {
     "fact spawn-singleflight": ("actor/spawn.go", r"func \(x \*actorSystem\) Spawn\((?s:.*?)return x\.runSpawnActivation\(ctx, x\.actorReference\(name\)\.String\(\), func\(\) \(\*PID, error\) \{"),
     "fact func-singleflight": ("actor/spawn.go", r"func \(x \*actorSystem\) SpawnNamedFromFunc\((?s:.*?)return x\.runSpawnActivation\(ctx, x\.actorReference\(name\)\.String\(\), func\(\) \(\*PID, error\) \{"),
     "fact child-singleflight": ("actor/pid.go", r"func \(pid \*PID\) spawnChildLocal\((?s:.*?)return pid\.actorSystem\.runSpawnActivation\(ctx, childAddress\.String\(\), func\(\) \(\*PID, error\) \{"),
@@ -109,7 +109,7 @@ def _case(rng, stops=True):
 
 def gen_cases(rng, tier):
     n = 300 if tier == "quick" else 5000
-    return list(FACTS) + [_case(rng) for _ in range(n)]
+    return list(SRC_FACTS) + [_case(rng) for _ in range(n)]
 
 
 def search_cases(rng, tier):
@@ -118,8 +118,8 @@ def search_cases(rng, tier):
 
 
 def compare(case, impl, model):
-    if case in FACTS:
-        rel, pat = FACTS[case]
+    if case in SRC_FACTS:
+        rel, pat = SRC_FACTS[case]
         try:
             src = open(os.path.join(REPO, rel)).read()
         except OSError as e:
@@ -129,7 +129,7 @@ def compare(case, impl, model):
 
 
 def oracle(case, impl, judge):
-    if case in FACTS:
+    if case in SRC_FACTS:
         return None
     if impl.startswith("CRASH") or impl.startswith("panic"):
         return "harness crashed: " + impl[:200]
@@ -201,7 +201,7 @@ def is_trivial(case, impl):
 
 
 def tag(case, impl):
-    if case in FACTS:
+    if case in SRC_FACTS:
         return "fact"
     t = []
     if "bK." in case:
